@@ -7,12 +7,14 @@ from .. import lbgen, lbshadow
 from . import c02
 
 ID = "C05"
-MODULES = ["Helios.Props.CodeStrat", "Helios.Props.C05", "Helios.Props.C05W"]
+MODULES = ["Helios.Props.CodeStrat", "Helios.Props.CodeSame", "Helios.Props.C05", "Helios.Props.C05W"]
 THEOREMS = ["Helios.LB.rr_exact", "Helios.LB.lc_min", "Helios.LB.normWeight_pos",
             "Helios.WRR.wrr_exact", "Helios.WRR.wrr_period", "Helios.WRR.wrr_window", "Helios.LB.core_refines",
             "Helios.WRR.wrr_drift", "Helios.LB.core_refines_elig", "Helios.LB.reset_fresh",
             # Tie C: NextBackend of round_robin and least_connections as written are the model's rrPick / lcPick
-            "Helios.CodeTie.rrNext_refines", "Helios.CodeTie.lcNext_refines", "Helios.CodeTie.translation_clean_strat"]
+            "Helios.CodeTie.rrNext_refines", "Helios.CodeTie.lcNext_refines", "Helios.CodeTie.translation_clean_strat",
+            # Tie C: the candidate-set comparison of the weighted strategy, translated from the source on every run
+            "Helios.CodeTie.sameBackends_refines", "Helios.CodeTie.translation_clean_same"]
 SEC = lbgen.SEC
 
 
@@ -274,6 +276,7 @@ def check(ctx):
         [gen_episode(ctx.rng, long=ctx.thorough()) for _ in range(nep)] + conc_episodes(ctx.rng, ctx.thorough()) + \
         seek_episodes(ctx.rng)[:30 if ctx.thorough() else 12] + heavy_weight_episodes(ctx.rng) + big_pool_episodes(ctx.rng)
     bad = d.check(episodes, oracle=oracle, label="dist")
+    ctx.cov["heavy_weight_big_pool_and_same_name_replacement_episodes"] = 6 + 3 + 4
     nontriv = set()
     strat_count = {}
     if bad == 0:
